@@ -167,6 +167,35 @@ pub fn jobs(tier: Tier) -> Vec<Job> {
             }
         }
     }
+    // EIP-8037 (Amsterdam): a gas limit above the per-transaction cap leaves the excess in the
+    // state-gas reservoir, which the reward has to exclude ("reservoir gas excluded"); state-creating
+    // work (fresh slot, fresh account, contract creation) draws on the reservoir
+    for role in [Role::Absent, Role::PlainEoa, Role::Sender, Role::ContractWithStorage, Role::CreatedInBlock] {
+        for f in [Fee::Legacy10, Fee::Tip3] {
+            let spec = SpecId::AMSTERDAM;
+            let db = world(role);
+            let mut templates = templates(role, f);
+            templates.push(tpl("pay-fresh-account(e3)", eoa(3), &["coinbase"], move |n| fee(transfer(eoa(3), n, fresh(3), 5), f)));
+            for t in templates.iter_mut() {
+                let inner = t.build.clone();
+                t.build = Arc::new(move |n, nonce_of| {
+                    let mut tx = inner(n, nonce_of);
+                    tx.gas_limit = (1u64 << 24) + 300_000;
+                    tx
+                });
+            }
+            let max_len = if tier == Tier::Quick { 2 } else { 3 };
+            for seq in sequences(templates.len(), max_len) {
+                if seq.len() < 2 || !seq.iter().any(|&t| t >= 2) {
+                    continue;
+                }
+                let name = format!("c07r:{role:?}:{f:?}");
+                let Some(mut case) = build_case(&name, spec, &db, &templates, &seq) else { continue };
+                case.env.beneficiary = beneficiary_of(role);
+                v.push(pipeline_job("c07-reservoir", &case, &RunCfg::parallel(2), COARSE, if tier == Tier::Quick { 1 } else { 2 }, false));
+            }
+        }
+    }
     // concurrent record / invalidate / resolve on the shared history: reader drivers, deeper and
     // with the commit-event oracle (the beneficiary value after *every* transaction)
     for role in [Role::Absent, Role::Sender, Role::ContractWithStorage, Role::NearOverflow] {
